@@ -56,6 +56,14 @@ def _judge(case, got, drv, path, other=None):
         if bad:
             out.append(dict(kind='property', key=f'erode:{path}',
                             detail=dict(pixels=bad[:8], got=g, spec=spec, path=path)))
+        elif path == 'fast' and 'loops' in drv:
+            # diagnostic tie of the loop-by-loop transliteration of the fast erosion branch
+            # (C01_fast_erode_loops_eq_pointwise proves it equal to the pointwise model and hence to the spec)
+            loops = core.ints(drv['loops'])
+            badm = [i for i, (a, b) in enumerate(zip(g, loops)) if a != b]
+            if badm:
+                out.append(dict(kind='model', key='erode-loops-model:fast',
+                                detail=dict(pixels=badm[:8], got=g, model=loops, path=path)))
     else:
         obs = core.ints(drv['obs'])
         bad = [i for i, (a, b, o) in enumerate(zip(g, spec, obs)) if o and a != b]
@@ -68,6 +76,13 @@ def _judge(case, got, drv, path, other=None):
             if badm:
                 out.append(dict(kind='model', key=f'dilate-model:{path}',
                                 detail=dict(pixels=badm[:8], got=g, model=m, path=path)))
+            elif path == 'fast' and 'loops' in drv:
+                # loop-by-loop transliteration of the fast dilation branch (C01_fast_dilate_loops_eq_pointwise)
+                loops = core.ints(drv['loops'])
+                badl = [i for i, (a, b) in enumerate(zip(g, loops)) if a != b]
+                if badl:
+                    out.append(dict(kind='model', key='dilate-loops-model:fast',
+                                    detail=dict(pixels=badl[:8], got=g, model=loops, path=path)))
     if other is not None:
         o = [int(x) for x in other.ravel(order='C').tolist()]
         if o != g:
